@@ -968,7 +968,21 @@ def build_cases(check, ctx, per_type):
 	return cases, generator.forms
 
 
+def _d9(key, node, what):
+	return {'net': 'symbol', 'network': 'testnet', 'entry': 'top', 'autosort': True,
+		'desc': [['type', {'s': 'transfer_transaction_v1'}], ['fee', {'i': 1000}], [key, node]],
+		'inject': {'kind': 'non-member', 'what': what, 'key': key, 'late_ok': False}}
+
+
 CORNERS = [
+	# D9 (DESIGN.md section 1): attributes that are not members, smallest replays first
+	_d9('TYPE_HINTS', {'i': 1}, "attribute 'TYPE_HINTS' is not a member"),
+	_d9('TRANSACTION_VERSION', {'i': 7}, "attribute 'TRANSACTION_VERSION' is not a member"),
+	_d9('serialize', {'i': 1}, "attribute 'serialize' is not a member"),
+	_d9('_fee', {'i': 5}, "private slot '_fee'"),
+	{'net': 'symbol', 'network': 'testnet', 'entry': 'top', 'autosort': True, 'flags_int': True,
+		'desc': [['type', {'s': 'mosaic_definition_transaction_v1'}], ['flags', {'i': -1}]],
+		'inject': {'kind': 'flags-negative', 'what': 'flags: negative number -1 for MosaicFlags', 'key': 'flags', 'late_ok': False, 'cls': 'MosaicFlags'}},
 	# the README descriptors
 	{'net': 'symbol', 'network': 'testnet', 'entry': 'top', 'autosort': True, 'desc': [
 		['type', {'s': 'transfer_transaction_v1'}], ['signer_public_key', {'s': '87DA603E7BE5656C45692D5FC7F6D0EF8F24BB7A5C10ED5FDA8C5CFBC49FCBC8'}],
@@ -1059,9 +1073,15 @@ def run(check, unrecognised):
 	check.extra['forms_generated'] = dict(sorted(forms.items()))
 	check.extra['object_only_members'] = 'members whose type has no parsing rule take SDK objects only: signature (pod:Signature), aggregate ' \
 		'transactions / cosignatures (array[EmbeddedTransaction], array[Cosignature]), NEM multisig inner_transaction (struct:NonVerifiableTransaction)'
-	seen_samples = 0
-	for disagreement in check.disagreements[:0]:
-		seen_samples += 1
+	check.extra['level_note'] = 'proof, partial: create_holds_values is proved for the object before sort() / id filling (those stages have their own ' \
+		'theorems); create_then_enc_dec carries the layout round trip as a named premise; rule discovery by reflection is represented by regenerated tables'
+	check.extra['observations'] = [
+		'struct members whose type has a parsing rule accept nested dictionaries only (an SDK struct object there raises AttributeError: no .keys())',
+		'a hex string for a byte pod without a rule (signature) is not parsed: it is stored as the UTF-8 bytes of the text (not generated: undocumented form)',
+		'out-of-range plain integer members (version, divisibility, deltas ...) are accepted by create and refused by serialize() with OverflowError',
+		'a multisig_transaction_v1 (NEM) created without inner_transaction serializes (default: abstract NonVerifiableTransaction(), type TRANSFER, '
+		'version 0) but cannot be deserialized (KeyError in the factory); the generator therefore always describes members of abstract struct type',
+		'examples/descriptors/nem_cosignature.py uses the type name cosignature_transaction_v1, which create_by_name does not know (cosignature_v1)']
 
 
 def replay(data):
